@@ -145,6 +145,7 @@ int sigma_build(pev *out, int cap, int variant) {
         ADD(ev_discover(0, ST_M1, ST_M1, 0x1234, 1));
         ADD(ev_discover(1, ST_M2, ST_BR, 0xFFFF, 0));
         ADD(ev_discover(0, ST_M2, ST_M2, 0, 1));
+        ADD(ev_discover(0, ST_M1, ST_BR, 0x1234, 1));        /* the same mapper through another path */
         ADD(ev_reset(0, ST_M1)); ADD(ev_reset(1, ST_M1));
         ADD(ev_hello(0, ST_PEER, 0x3412));
         ADD(ev_probe(0x04, 0, ST_S0, ST_S0, ST_OWN, ST_OWN));
